@@ -98,6 +98,11 @@ def run(F, tier, res):
     E.add_e1(res, {'P': R['P']}, {'PASS'}, 'C04')
     E.add_e1(res, {m: r for m, r in R.items() if m != 'P'}, {'DECLINE-MUT', 'DECLINE-CONSUME'}, 'C04')
     P = R['P']
+    # pass-through text is interleaved correctly with rendered sections: the fall-through writer never writes while rendered or
+    # buffered lines of an earlier construct are still pending (ORD-W at the pass-through writer, all line classes, modes N/H)
+    claimers = set(P['summary']['pt_claimers'])
+    E.add_e1(res, {m: r for m, r in R.items() if m != 'P'}, {'ORD-W'}, 'C04',
+             fn_filter=lambda v: v['fn'] in claimers or any(v['fn'].endswith('::' + c.split('::')[-1]) for c in claimers))
     res.rule('C04.PASS', P['summary']['pt_checked'], 20, 'claimed lines in pass-through mode from %d line-start states; each is one raw-line write by the fall-through handler (claimers: %s)' % (
         P['summary']['loop_head_states'], [c.split('::')[-1] for c in P['summary']['pt_claimers']]), samples=P['loophead'][:5])
     if len(P['summary']['pt_claimers']) != 1:
